@@ -48,6 +48,7 @@ from bounded.reftree import (
 )
 
 MODULE = "checks.bounded_C13"
+CALL_WATCHDOG = 6  # seconds per insert_tree call
 
 METHOD_NAMES = {1: "direct-embedding", 2: "self-embedding", 4: "context-addition"}
 
@@ -252,21 +253,26 @@ def _worker(task) -> dict:
     logging.disable(logging.CRITICAL)
     grammar = task["grammar"]
     res = dict(n=0, with_results=0, results=0, fails=[], timeouts=0, timeout_cases=[],
-               by_method={}, open_hosts=0, closed_hosts=0)
+               by_method={}, open_hosts=0, closed_hosts=0, skipped_after_timeout=0)
     for hj in task["hosts"]:
         hst = struct_unjson(hj)
         for xj in task["inserts"]:
             xst = struct_unjson(xj)
+            expired = 0  # watchdog expiries for this (host, x); after two the pair is given up
             for m in task["methods"]:
                 for k in task["ks"]:
+                    if expired >= 2:
+                        res["skipped_after_timeout"] += 1
+                        continue
                     host = from_struct(hst)
                     x = from_struct(xst)
                     try:
-                        with watchdog(20):
+                        with watchdog(CALL_WATCHDOG):
                             fails, nres = check_case(grammar, host, x, m, k)
                     except Watchdog:
                         res["timeouts"] += 1
-                        if len(res["timeout_cases"]) < 3:
+                        expired += 1
+                        if len(res["timeout_cases"]) < 2:
                             res["timeout_cases"].append(
                                 f"host={show(host)} x={show(x)} methods={methods_name(m)} k={k} "
                                 f"grammar={grammar!r}"[:400])
@@ -311,6 +317,10 @@ def run(rep, tier, seed):
 
     rep.assume("oracles bounded.reftree.ref_valid / ref_paths are trusted; the GrammarGraph passed "
                "to insert_tree is ISLa's own (argument of the function under test)")
+    rep.assume(f"calls running longer than {CALL_WATCHDOG} s (the number of connecting trees grows "
+               "exponentially for wide or highly recursive grammars with max_num_solutions=None) are "
+               "inconclusive; after two expiries the remaining method/k combinations of that (host, x) "
+               "pair are skipped")
     rep.assume("host and inserted tree consist of fresh nodes with pairwise distinct ids (the "
                "function's own pre-condition, asserted in insert_trees)")
     rep.rule("case = (grammar, host, x, methods, max_num_solutions); non-trivial iff insert_tree "
@@ -344,7 +354,8 @@ def run(rep, tier, seed):
                 tasks.append(dict(gname=name + "/" + style, grammar=g, hosts=hj[i:i + 2], inserts=xj,
                                   methods=methods, ks=ks))
 
-    total = dict(cases=0, with_results=0, results=0, timeouts=0, open_hosts=0, closed_hosts=0)
+    total = dict(cases=0, with_results=0, results=0, timeouts=0, open_hosts=0, closed_hosts=0,
+                 skipped_after_timeout=0)
     by_method: Dict[str, int] = {}
     all_fails: List[dict] = []
     fail_counts: Dict[str, int] = {}
@@ -354,12 +365,13 @@ def run(rep, tier, seed):
             rep.checker_error("worker crashed: " + res["__crash__"])
             continue
         total["cases"] += res["n"]
-        for key in ("with_results", "results", "timeouts", "open_hosts", "closed_hosts"):
+        for key in ("with_results", "results", "timeouts", "open_hosts", "closed_hosts",
+                    "skipped_after_timeout"):
             total[key] += res[key]
         for mname, n in res["by_method"].items():
             by_method[mname] = by_method.get(mname, 0) + n
         for tc in res["timeout_cases"]:
-            rep.note_inconclusive("watchdog (20 s): " + tc)
+            rep.note_inconclusive(f"watchdog ({CALL_WATCHDOG} s): " + tc)
         for hj in task["hosts"]:
             for xj in task["inserts"]:
                 shown += 1
@@ -375,7 +387,9 @@ def run(rep, tier, seed):
     rep.section("failures_by_signature", **fail_counts)
     rep.exhaustive = False
     if total["timeouts"]:
-        rep.note_inconclusive(f"{total['timeouts']} calls hit the 20 s watchdog")
+        rep.note_inconclusive(f"{total['timeouts']} calls hit the {CALL_WATCHDOG} s watchdog; "
+                              f"{total['skipped_after_timeout']} further combinations of the same "
+                              f"(host, x) pairs were skipped after two expiries")
 
     if total["with_results"] == 0:
         rep.checker_error("insert_tree never returned a result")
